@@ -83,6 +83,110 @@ pub(crate) fn build_reply<'b>(
     }
 }
 
+#[cfg(simple_dns_verif)]
+/// verification hooks: thin wrappers over the crate-private record store and reply logic
+pub mod verif_hooks {
+    use crate::resource_record_manager::{DomainResourceFilter, ResourceRecordManager};
+    use simple_dns::{Name, Packet, ResourceRecord};
+
+    /// The record store used by the responder and the service discovery
+    pub struct Store(pub(crate) ResourceRecordManager<'static>);
+
+    impl Default for Store {
+        fn default() -> Self {
+            Self::new()
+        }
+    }
+
+    impl Store {
+        /// new empty store
+        pub fn new() -> Self {
+            Store(ResourceRecordManager::new())
+        }
+        /// add_authoritative_resource
+        pub fn add_authoritative(&mut self, rr: ResourceRecord<'static>) {
+            self.0.add_authoritative_resource(rr)
+        }
+        /// add_cached_resource
+        pub fn add_cached(&mut self, rr: ResourceRecord<'static>) {
+            self.0.add_cached_resource(rr)
+        }
+        /// remove_resource_record
+        pub fn remove(&mut self, rr: &ResourceRecord<'static>) {
+            self.0.remove_resource_record(rr)
+        }
+        /// clear
+        pub fn clear(&mut self) {
+            self.0.clear()
+        }
+        /// get_domain_resources; filter 0 = authoritative(false), 1 = authoritative(true), 2 = cached, 3 = all
+        pub fn query(&self, name: &Name, filter: u8) -> Vec<Vec<ResourceRecord<'static>>> {
+            let filter = match filter {
+                0 => DomainResourceFilter::authoritative(false),
+                1 => DomainResourceFilter::authoritative(true),
+                2 => DomainResourceFilter::cached(),
+                _ => DomainResourceFilter::all(),
+            };
+            self.0
+                .get_domain_resources(name, filter)
+                .map(|domain| domain.map(|rr| rr.clone().into_owned()).collect())
+                .collect()
+        }
+        /// build_reply: (reply id, RESPONSE flag set, answers, additional records, unicast, compressed bytes)
+        #[allow(clippy::type_complexity)]
+        pub fn build_reply(
+            &self,
+            packet: Packet,
+        ) -> Option<(
+            u16,
+            bool,
+            Vec<ResourceRecord<'static>>,
+            Vec<ResourceRecord<'static>>,
+            bool,
+            Result<Vec<u8>, simple_dns::SimpleDnsError>,
+        )> {
+            crate::build_reply(packet, &self.0).map(|(reply, unicast)| {
+                (
+                    reply.id(),
+                    reply.has_flags(simple_dns::PacketFlag::RESPONSE),
+                    reply.answers.iter().map(|rr| rr.clone().into_owned()).collect(),
+                    reply
+                        .additional_records
+                        .iter()
+                        .map(|rr| rr.clone().into_owned())
+                        .collect(),
+                    unicast,
+                    reply.build_bytes_vec_compressed(),
+                )
+            })
+        }
+        /// InstanceInformation::from_records over every domain returned by the cached filter
+        pub fn known_services(&self, service_name: &Name) -> Vec<crate::InstanceInformation> {
+            self.0
+                .get_domain_resources(service_name, DomainResourceFilter::cached())
+                .filter_map(|domain| crate::InstanceInformation::from_records(service_name, domain))
+                .collect()
+        }
+        #[cfg(feature = "sync")]
+        /// sync service discovery ingest of a response packet
+        pub fn add_response(
+            &mut self,
+            packet: Packet,
+            service_name: &Name<'_>,
+            full_name: &Name<'_>,
+            with_channel: bool,
+        ) -> Vec<crate::InstanceInformation> {
+            crate::sync_discovery::verif_add_response(
+                packet,
+                service_name,
+                full_name,
+                &mut self.0,
+                with_channel,
+            )
+        }
+    }
+}
+
 #[cfg(test)]
 mod tests {
     use simple_dns::Name;
